@@ -32,6 +32,10 @@ pub struct Dom {
     pub no_nearest: bool,
     /// cap on fft rate/gcd
     pub fft_cap: usize,
+    /// user-written (odd-length) interpolators through new_with_interpolator at a low rate
+    pub custom_kernels: bool,
+    /// zero-channel instances at a low rate
+    pub zero_channels: bool,
 }
 
 impl Default for Dom {
@@ -50,6 +54,8 @@ impl Default for Dom {
             f32: None,
             no_nearest: false,
             fft_cap: 640,
+            custom_kernels: false,
+            zero_channels: false,
         }
     }
 }
@@ -73,6 +79,9 @@ const SMALL_PAIRS: [(usize, usize); 14] = [
 ];
 const EXACT_RATIOS: [f64; 12] = [1.0, 2.0, 0.5, 48000.0 / 44100.0, 44100.0 / 48000.0, 1.5, 2.0 / 3.0, 4.0, 0.25, 16.0, 0.0625, 3.0];
 
+/// the exact rationals of EXACT_RATIOS as (numerator, denominator) of ratio = out/in
+const EXACT_FRACS: [(usize, usize); 12] = [(1, 1), (2, 1), (1, 2), (160, 147), (147, 160), (3, 2), (2, 3), (4, 1), (1, 4), (16, 1), (1, 16), (3, 1)];
+
 fn gcd(a: usize, b: usize) -> usize {
     if b == 0 {
         a
@@ -90,7 +99,11 @@ pub fn gen_chunk(rng: &mut Rng, max: usize) -> usize {
 pub fn gen_config(rng: &mut Rng, dom: &Dom) -> Config {
     let kind = *rng.pick(&dom.kinds);
     let f32_ = dom.f32.unwrap_or_else(|| rng.chance(0.5));
-    let ratio = if rng.chance(0.3) { *rng.pick(&EXACT_RATIOS) } else { rng.log_uniform(1.0 / 16.0, 16.0) };
+    let exact_idx = if rng.chance(0.3) { Some(rng.below(EXACT_RATIOS.len() as u64) as usize) } else { None };
+    let ratio = match exact_idx {
+        Some(i) => EXACT_RATIOS[i],
+        None => rng.log_uniform(1.0 / 16.0, 16.0),
+    };
     let max_rel = if !dom.ratio_changes {
         if rng.chance(0.5) {
             1.0
@@ -113,13 +126,25 @@ pub fn gen_config(rng: &mut Rng, dom: &Dom) -> Config {
         .max(1.0)
     };
     let mut chunk = gen_chunk(rng, dom.max_chunk);
+    // "resonant" chunk sizes: chunk/ratio or chunk*ratio an exact integer (rounding coincidences live there)
+    if let Some(i) = exact_idx {
+        if rng.chance(0.4) {
+            let (num, den) = EXACT_FRACS[i];
+            let base = if rng.chance(0.5) { num } else { den };
+            let k = rng.log_usize(1, (dom.max_chunk / base.max(1)).max(1));
+            chunk = (base * k).clamp(1, dom.max_chunk.max(1));
+        }
+    }
     let channels = {
         let c = rng.weighted(&[0.0, 0.4, 0.25, 0.1, 0.08, 0.05, 0.04, 0.04, 0.04]);
         c.clamp(1, dom.max_channels.max(1))
     };
     let sinc_lens = [8usize, 16, 24, 32, 40, 64, 100, 128, 136, 256, 512, 12, 60, 250];
     let mut sinc_len = *rng.pick(&sinc_lens);
-    if sinc_len > dom.max_sinc_len {
+    let very_long = dom.max_sinc_len >= 512 && rng.chance(0.03);
+    if very_long {
+        sinc_len = *rng.pick(&[1024usize, 1048, 1080, 1528, 2000, 2048, 2056]);
+    } else if sinc_len > dom.max_sinc_len {
         sinc_len = dom.max_sinc_len;
     }
     let overs = [1usize, 2, 3, 4, 16, 128, 256, 2048, 5, 32, 160];
@@ -130,6 +155,9 @@ pub fn gen_config(rng: &mut Rng, dom: &Dom) -> Config {
     // table construction cost: keep len * oversampling large only rarely
     if sinc_len * oversampling > 65536 && !rng.chance(0.05) {
         oversampling = (65536 / sinc_len).max(1);
+    }
+    if very_long {
+        oversampling = oversampling.min(8);
     }
     let mut interp = rng.below(4) as u8;
     if dom.no_nearest && interp == 0 {
@@ -160,6 +188,12 @@ pub fn gen_config(rng: &mut Rng, dom: &Dom) -> Config {
         }
     };
     let mut sub_chunks = *rng.pick(&[1usize, 1, 1, 2, 2, 3, 4, 8]);
+    if kind.is_fft() && rng.chance(0.2) {
+        let g = gcd(rate_in, rate_out);
+        let base = if rng.chance(0.5) { rate_in / g } else { rate_out / g };
+        let k = rng.log_usize(1, (dom.max_chunk.min(4096) / base.max(1)).max(1));
+        chunk = (base * k).clamp(1, dom.max_chunk.max(1));
+    }
     if kind.is_fft() {
         // keep the fft block bounded: block = ceil(chunk/sub/min)*min
         if sub_chunks > chunk && !(dom.edges && rng.chance(0.02)) {
@@ -184,6 +218,12 @@ pub fn gen_config(rng: &mut Rng, dom: &Dom) -> Config {
         None
     };
     let empty_inactive = mask.is_some() && rng.chance(0.5);
+    let mut kernel = dom.kernel;
+    if dom.custom_kernels && kind.is_sinc() && kernel == Kernel::Auto && rng.chance(0.06) {
+        kernel = Kernel::Custom;
+        sinc_len = *rng.pick(&[2usize, 3, 5, 7, 9, 15, 33, 63, 100, 127]);
+    }
+    let (channels, mask) = if dom.zero_channels && rng.chance(0.01) { (0, mask.map(|_| Vec::new())) } else { (channels, mask) };
     Config {
         kind,
         f32: f32_,
@@ -200,7 +240,7 @@ pub fn gen_config(rng: &mut Rng, dom: &Dom) -> Config {
         window,
         f_cutoff,
         degree,
-        kernel: dom.kernel,
+        kernel,
         cpu_mask: 0,
         mask,
         empty_inactive,
@@ -249,8 +289,19 @@ pub fn gen_rel(rng: &mut Rng, cfg: &Config, edges: bool) -> f64 {
     if m <= 1.0 {
         return 1.0;
     }
-    let c = rng.weighted(&[0.5, 0.15, 0.15, 0.1, 0.1]);
+    let c = rng.weighted(&[0.5, 0.15, 0.15, 0.1, 0.1, 0.08]);
     match c {
+        5 => {
+            // a trim far below the usual step: 1 +- 10^-(6..13)
+            let e = rng.uniform(6.0, 13.0);
+            let d = 10f64.powf(-e) * if rng.chance(0.5) { 1.0 } else { -1.0 };
+            let v = 1.0 + d;
+            if v >= 1.0 / m && v <= m {
+                v
+            } else {
+                1.0
+            }
+        }
         0 => {
             let l = m.ln() * 0.999;
             (rng.uniform(-l, l)).exp()
@@ -298,6 +349,8 @@ pub struct OpMix {
     /// probability that a processing call goes through a non-core path
     pub p_alt_path: f64,
     pub p_slack: f64,
+    /// channels get different numbers of real frames
+    pub p_ragged: f64,
     pub p_ramp: f64,
     pub ratio_edges: bool,
 }
@@ -315,6 +368,7 @@ impl OpMix {
             w_bad: 0.0,
             p_alt_path: if rng.chance(0.5) { 0.0 } else { rng.uniform(0.0, 0.5) },
             p_slack: if rng.chance(0.5) { 0.0 } else { rng.uniform(0.0, 0.6) },
+            p_ragged: if rng.chance(0.6) { 0.0 } else { rng.uniform(0.0, 0.5) },
             p_ramp: rng.unit(),
             ratio_edges: true,
         }
@@ -343,7 +397,8 @@ pub fn gen_process(rng: &mut Rng, mix: &OpMix, partial: bool) -> Op {
     } else {
         (0, 0)
     };
-    Op::Process { path, valid, slack_in, slack_out, slices: rng.chance(0.2) }
+    let ragged = if rng.chance(mix.p_ragged) { 1 + rng.below(255) as u8 } else { 0 };
+    Op::Process { path, valid, slack_in, slack_out, slices: rng.chance(0.2), ragged }
 }
 
 pub fn gen_set_mask(rng: &mut Rng, cfg: &Config) -> Op {
@@ -467,7 +522,14 @@ pub fn gen_ops_adversarial(rng: &mut Rng, cfg: &Config, mix: &OpMix) -> Vec<Op> 
                 // several setter calls in a row before one processing call
                 for _ in 0..rng.usize_in(1, 3) {
                     if can_ratio {
-                        ops.push(Op::SetRatio { rel: gen_rel(rng, cfg, mix.ratio_edges), ramp: rng.chance(mix.p_ramp), relative_api: rng.chance(0.5) });
+                        let rel = gen_rel(rng, cfg, mix.ratio_edges);
+                        let ramp = rng.chance(mix.p_ramp);
+                        let api = rng.chance(0.5);
+                        ops.push(Op::SetRatio { rel, ramp, relative_api: api });
+                        if rng.chance(0.4) {
+                            // the same value again with the other ramp flag (and possibly through the other setter)
+                            ops.push(Op::SetRatio { rel, ramp: !ramp, relative_api: if rng.chance(0.5) { api } else { !api } });
+                        }
                     }
                     if can_chunk && rng.chance(0.5) {
                         ops.push(Op::SetChunk { n: gen_chunk(rng, cfg.chunk) });
@@ -493,10 +555,10 @@ pub fn gen_ops_clip(rng: &mut Rng, cfg: &Config, mix: &OpMix) -> Vec<Op> {
             ops.push(gen_process(rng, mix, false));
         }
         let p = *rng.pick(&[Path::PartialInto, Path::PartialWrapper, Path::VecPartialInto, Path::VecPartialWrapper]);
-        ops.push(Op::Process { path: p, valid: Some(rng.log_usize(1, 5000) as u32), slack_in: 0, slack_out: 0, slices: false });
+        ops.push(Op::Process { path: p, valid: Some(rng.log_usize(1, 5000) as u32), slack_in: 0, slack_out: 0, slices: false, ragged: 0 });
         for _ in 0..rng.usize_in(1, 3) {
             let p = *rng.pick(&[Path::PartialInto, Path::PartialWrapper, Path::VecPartialInto, Path::VecPartialWrapper]);
-            ops.push(Op::Process { path: p, valid: Some(0), slack_in: 0, slack_out: 0, slices: false });
+            ops.push(Op::Process { path: p, valid: Some(0), slack_in: 0, slack_out: 0, slices: false, ragged: 0 });
         }
         ops.push(Op::Reset);
     }
@@ -550,7 +612,7 @@ pub fn gen_ops_ratematch(rng: &mut Rng, cfg: &Config, mix: &OpMix) -> (Vec<Op>, 
         if rng.chance(stall_p) {
             // producer stall: underrun, only part of the chunk arrived -> zero padded call
             let have = rng.log_usize(1, 5000) as u32;
-            ops.push(Op::Process { path: Path::IntoBuffer, valid: Some(have), slack_in: 0, slack_out: 0, slices: false });
+            ops.push(Op::Process { path: Path::IntoBuffer, valid: Some(have), slack_in: 0, slack_out: 0, slices: false, ragged: 0 });
         } else {
             ops.push(gen_process(rng, mix, false));
         }
